@@ -39,6 +39,17 @@ def main() -> int:
             d = rewrite.map_schemas(d, strip)
             feats = feats | {"enum_null:plain"}
         bases.append((f"random:{i}", d, feats))
+    # documents with a nullable composing allOf carrying sibling annotations (3.0 spelling)
+    for i in range(12 if quick else 120):
+        d, feats = docs.random_doc(("C17n", seed(), i), version="3.0.3", n_ops=2)
+        S = d["components"]["schemas"]
+        mods = [k for k, v in S.items() if v.get("type") == "object" and "allOf" not in v]
+        if len(mods) < 2:
+            continue
+        a, b = r.sample(mods, 2)
+        S[a].setdefault("properties", {})["zq_nullable_composed"] = {"nullable": True, "description": "composed or null", "allOf": [{"$ref": f"#/components/schemas/{b}"}, {"type": "object", "properties": {"zq_more": {"type": "string"}}}]}
+        S[a]["properties"]["zq_nullable_titled"] = {"nullable": True, "title": "Zq Titled Thing", "allOf": [{"type": "object", "properties": {"zq_only": {"type": "integer"}}}]}
+        bases.append((f"nullable_allof:{i}", d, feats | {"nullable_allof_multi"}))
     jobs, info = [], {}
     for bi, (label, d, feats) in enumerate(bases):
         cfg = {"literal_enums": bi % 4 == 3}
@@ -53,9 +64,17 @@ def main() -> int:
         add("url_json", d, 1, source="url", url_ctype="application/json")
         add("url_json_charset", d, 1, source="url", url_ctype="application/json; charset=utf-8")
         add("url_yaml", d, 1, source="url", url_ctype="application/yaml", fmt="yaml")
+        if bi % 6 == 0:
+            dn = docs.clone(d)
+            dn["info"]["description"] = "très grand café"
+            dn["components"]["schemas"]["ZqAccent"] = {"type": "string", "enum": ["très grand", "petit"], "description": "Größe"}
+            for enc in ("cp1252", "utf-16"):
+                add(f"base_enc_{enc}", dn, 1, file_encoding=enc, ensure_ascii=False)
+                add(f"yaml_enc_{enc}", dn, 1, fmt="yaml", file_encoding=enc)
+                add(f"json_ascii_enc_{enc}", dn, 1, file_encoding=enc, ensure_ascii=True)
         for p in (1.0, 0.5):
             for kind, mk in (("nullable_typelist", lambda: rewrite.rw_nullable(r, p, "typelist")), ("nullable_member", lambda: rewrite.rw_nullable(r, p, "member")),
-                             ("nullable_ref_member", lambda: rewrite.rw_nullable_ref(r, p)), ("enum_null_union", lambda: rewrite.rw_enum_null(r, p, "plain")), ("enum_null_union_nullable30", lambda: rewrite.rw_enum_null(r, p, "nullable30")),
+                             ("nullable_ref_member", lambda: rewrite.rw_nullable_ref(r, p)), ("nullable_allof_multi", lambda: rewrite.rw_nullable_allof_multi(r, p)), ("enum_null_union", lambda: rewrite.rw_enum_null(r, p, "plain")), ("enum_null_union_nullable30", lambda: rewrite.rw_enum_null(r, p, "nullable30")),
                              ("enum_null_union_typelist31", lambda: rewrite.rw_enum_null(r, p, "typelist31")),
                              ("wrap_ref", lambda: rewrite.rw_wrap_ref(r, p)), ("wrap_ref_allOf", lambda: rewrite.rw_wrap_ref(r, p, "allOf")), ("wrap_ref_anyOf", lambda: rewrite.rw_wrap_ref(r, p, "anyOf")),
                              ("unwrap_ref", lambda: rewrite.rw_unwrap_ref(r, p))):
@@ -66,15 +85,22 @@ def main() -> int:
                 add(f"{kind}@{p}", v, fn.count[0])
     rs = run.map(jobs, timeout=300)
     base = {}
+    enc_base = {}
     for j, res in zip(jobs, rs):
         bi, kind, n = info[j["id"]]
         if kind == "base" and not res.get("_error"):
             base[bi] = res
+        if kind.startswith("base_enc_") and not res.get("_error"):
+            enc_base[(bi, kind[len("base_enc_"):])] = res
     for j, res in zip(jobs, rs):
         bi, kind, n = info[j["id"]]
-        if kind == "base" or bi not in base or res.get("_error"):
+        if kind == "base" or kind.startswith("base_enc_") or bi not in base or res.get("_error"):
             continue
         b = base[bi]
+        if "_enc_" in kind:
+            b = enc_base.get((bi, kind.split("_enc_")[1]))
+            if b is None:
+                continue
         if b.get("exc") or res.get("exc"):
             if bool(b.get("exc")) != bool(res.get("exc")):
                 vd.violation(f"{kind.split('@')[0]}:crash_differs", f"{bases[bi][0]}: one notation crashes the generator, the other does not", {"base": bases[bi][1], "variant": j.get("doc"), "kind": kind})
